@@ -95,6 +95,9 @@ func Gen(t *rapid.T, backend sim.Backend) *Program {
 	inserted := map[string]bool{}
 	for j := 0; j < nOps; j++ {
 		ops := []string{"set", "set", "set", "delete", "insert", "get"}
+		if !pess {
+			ops = append(ops, "insdel") // insert then delete: prewritten as a non-locking existence check
+		}
 		// unistore records the commit of a lock-only (Op_Lock) key only when it is the primary, so a resolver
 		// cannot tell a committed lock-only secondary of an async-commit transaction from a missing one (TiKV
 		// writes a Lock record): no lock-only keys on unistore (no bare lock, no pessimistic insert-then-delete)
@@ -104,6 +107,11 @@ func Gen(t *rapid.T, backend sim.Backend) *Program {
 		s := &sim.Step{Txn: 0, Op: rapid.SampledFrom(ops).Draw(t, "op"), Keys: []string{key("k")}}
 		if pess && backend == sim.Uni && s.Op == "delete" && inserted[s.Keys[0]] {
 			s.Op = "set"
+		}
+		if s.Op == "insdel" {
+			s.Op, s.Val = "insert", fmt.Sprintf("v.%d", j)
+			p.Victim = append(p.Victim, s)
+			s = &sim.Step{Txn: 0, Op: "delete", Keys: s.Keys}
 		}
 		if s.Op == "insert" {
 			inserted[s.Keys[0]] = true
@@ -276,6 +284,15 @@ func Run(p *Program, o Opts) (res Outcome) {
 		return
 	}
 	res.Log = w.Log
+	if r := cl.Runaway(); r != "" {
+		res.Entries = cl.Trace.Since(0)
+		if len(res.Entries) > 300 {
+			res.Entries = res.Entries[:300]
+		}
+		res.Victim = w.Txns[0]
+		res.Viol = append(res.Viol, sim.Violation{Rule: "termination", Msg: r})
+		return
+	}
 	res.Trace = cl.Trace.Describe()
 	res.Entries = cl.Trace.Since(0)
 	res.Victim = w.Txns[0]
